@@ -530,14 +530,19 @@ func (i *interpreter) assert(cond value, label string, known value, knownID stri
 		kt = i.termOf(known)
 	}
 	site := ""
+	if kt != c.False && !OpenKnown[knownID] {
+		kt = c.False // not (or no longer) a listed open finding: plain assertion
+	}
 	if kt != c.False {
 		// is the known finding (still) present on this path?
 		bad := c.And(kt, c.Not(ct))
 		if bad != c.False {
 			if p.ev.Eval(bad) != 0 {
 				i.stats.KnownSeen[knownID]++
-			} else if r, _ := i.query(bad); r == sym.Sat {
+				i.violation("assert", label, "known finding", site, p.model, knownID)
+			} else if r, m := i.query(bad); r == sym.Sat {
 				i.stats.KnownSeen[knownID]++
+				i.violation("assert", label, "known finding", site, m, knownID)
 			}
 		}
 	}
@@ -611,6 +616,9 @@ func (i *interpreter) escapedPanic(msg, site string) {
 	label := "panic@" + site
 	// known-panic predicates registered by the harness
 	for _, kp := range p.knownP {
+		if !OpenKnown[kp.id] {
+			continue
+		}
 		if kp.site != "" && !strings.Contains(site, kp.site) && !strings.Contains(msg, kp.site) {
 			continue
 		}
@@ -622,10 +630,12 @@ func (i *interpreter) escapedPanic(msg, site string) {
 		switch r {
 		case sym.Unsat:
 			i.stats.KnownSeen[kp.id]++
+			i.violation("panic", label, msg, site, p.model, kp.id)
 			return
 		case sym.Sat:
 			if p.ev.Eval(kp.cond) != 0 {
 				i.stats.KnownSeen[kp.id]++
+				i.violation("panic", label, msg, site, p.model, kp.id)
 			}
 			i.violation("panic", label, msg, site, m, "")
 			return
@@ -649,6 +659,10 @@ type RunConfig struct {
 	SolverMs   int
 	Debug      bool
 }
+
+// OpenKnown is the set of known-finding ids listed as open in known_findings.json.
+// A harness predicate naming any other id is ignored (plain assertion).
+var OpenKnown = map[string]bool{}
 
 // sortedKeys is a helper for deterministic output.
 func sortedKeys[V any](m map[string]V) []string {
